@@ -64,6 +64,9 @@ def layout_program(rng):
         "echo '@s single\nquoted'",
         'x=$(\necho "@sub inside"\n)\necho "$x"',       # ($LINENO inside a multi-line $( ) is open finding C15-F1)
         'lf() {\n  echo "@lf $LINENO"\n}\nlf',
+        # multi-byte characters inside constructs that span lines (character index vs byte length in the completeness decision)
+        'echo "@q héllo\nwörld $LINENO"', "echo '@s naïve\nquoted é'", 'cat <<EOF\n@hd naïve body é\nsecond 🚀 line\nEOF', 'pfx=é; y=$(\necho "@sub ü"\n)\necho "$pfx$y"',
+        'echo "@c é" a\\\nb', 'lf2() {\n  echo "@lf2 é $LINENO"\n}\nlf2', "cat <<'EOF'\n@hd $é not expanded\nEOF",
         'trap \'echo "@tr $LINENO"\' USR2',
         'case a in\n  a) echo "@case $LINENO" ;;\nesac',
         'if e i1 0\nthen\n  echo "@then $LINENO"\nfi',
@@ -351,8 +354,13 @@ def cache_layer(run, quick, scale):
 def session_layer(run, quick):
     """One brush process alternates option settings around eval of the same texts; each eval runs in ( ) so that a syntax
     error stays local while the (process-wide) parse caches are shared. Reference: the same evals in fresh processes."""
-    texts = ["echo @(a|b)", "x=ab; [[ $x == @(ab|c) ]] && echo m", "echo !(zz)", "case ab in +(a|b)) echo y;; esac", "echo ok"]
-    settings = ["shopt -s extglob", "shopt -u extglob", "set -o posix", "set +o posix"]
+    texts = ["echo @(a|b)", "x=ab; [[ $x == @(ab|c) ]] && echo m", "echo !(zz)", "case ab in +(a|b)) echo y;; esac", "echo ok",
+             # texts that read the same after quote removal but quote different parts must not share a compiled pattern / regex
+             "[[ abc =~ ^a.c$ ]] && echo r1", "[[ abc =~ ^a\\.c$ ]] && echo r2", '[[ abc =~ ^a"."c$ ]] && echo r3', "f=notes_txt; [[ $f =~ \\.txt$ ]] && echo r4",
+             "f=notes_txt; [[ $f =~ .txt$ ]] && echo r5", "p='a+'; [[ aaa =~ ^$p$ ]] && echo r6", "p='a+'; [[ aaa =~ ^\"$p\"$ ]] && echo r7",
+             "case abc in a?c) echo c1;; esac", "case abc in a\\?c) echo c2;; esac", 'case "a?c" in a"?"c) echo c3;; esac', "x=aXc; echo ${x/?X/-} ${x/\\?X/-}",
+             "[[ ABC == abc ]] && echo n1", "[[ ABC =~ ^abc$ ]] && echo n2", "x=a.c; [[ $x == a.c ]] && echo g1", 'x=abc; [[ $x == a"."c ]] && echo g2']
+    settings = ["shopt -s extglob", "shopt -u extglob", "set -o posix", "set +o posix", "shopt -s nocasematch", "shopt -u nocasematch", ":", ":"]
     rng = run.rng("session")
     for rep in range(6 if quick else 80):
         seq = [(rng.choice(settings), rng.choice(texts)) for _ in range(10)]
